@@ -216,6 +216,11 @@ def _check_term_matched_callers(cx, f, idx_param, seen_idioms):
             if pair == ("commit", "commit_term"):
                 cx.ok(key, "MSG-TERM-MATCHED: (m.commit, m.commit_term) of one received message", s, args=[show(idx), show(term)])
                 seen_idioms.add("MSG-TERM-MATCHED")
+                # a LEADER advances its commit index only through the quorum computation, never on one peer's say-so
+                from .vote import STATE, is_f as _isf
+                def not_leader(l):
+                    return (l[0] == "in" and _isf(l[1], STATE) and "Leader" not in l[2]) or (l[0] == "notin" and _isf(l[1], STATE) and "Leader" in l[2])
+                require(cx, s, key + ":not-leader", "the commit info carried by a vote message is adopted only by a node that is not the leader", not_leader, kill=False)
                 continue
             if pair == ("index", "term"):
                 ok = _in_msg_arm(cx, s, {"MsgReadIndexResp"})
